@@ -5,16 +5,12 @@ import os
 import random
 import lib
 import flowgen
+import flowcheck
+from flowcheck import canon
 
 PROP = "C02"
 FEATS_IN = ()                                   # inside the domain guard
 FEATS_OUT = ("badlevels", "wildbreak", "wildreturn")
-
-
-def canon(r):
-    if r["timeout"]:
-        return "timeout"
-    return "%d %s" % (r["rc"], ",".join(r["out"].split()))
 
 
 def small_programs():
@@ -70,52 +66,7 @@ def run(ctx):
         p = g.program(rng.choice([2, 3, 3, 4]))
         cases.append(("rand-in" if i < n_in else "rand-out", p, rng.random() < 0.5))
 
-    scripts = [flowgen.render(p, raw_esac=raw) for _, p, raw in cases]
-
-    def one(s):
-        return lib.run_both(s, timeout=20)
-
-    res = lib.pmap(one, scripts)
-    mouts = lib.run_drv_parallel(["C02 " + flowgen.wire_prog(p) for _, p, _ in cases])
-    nshown = 0
-    for (tag, p, raw), s, (b, o), m in zip(cases, scripts, res, mouts):
-        kinds = flowgen.kinds(p)
-        ctx.count(s, nontrivial=len(kinds) >= 3, bucket=tag)
-        for k in kinds:
-            ctx.bucket("uses_" + k)
-        ctx.impl_validated += 1
-        parts = m.split(" | ")
-        if len(parts) != 3:
-            ctx.violation("driver could not evaluate the program", {"script": s, "drv": m}, kind="correspondence")
-            continue
-        impl, spec, dom = parts
-        dom = [] if dom == "D=-" else dom[2:].split(",")
-        cb, co = canon(b), canon(o)
-        case = {"script": s, "wire": flowgen.wire_prog(p), "brush": cb, "bash": co, "impl_model": impl,
-                "bash_spec_model": spec, "guard_clauses": dom, "brush_stderr": b["err"][-300:]}
-        if co != spec:
-            ctx.oracle_mismatch += 1          # my transcription of bash is wrong here: never a violation of brush
-            ctx.notes.append("oracle_mismatch: " + s[-200:])
-        prop_holds = (cb == co)
-        if cb == impl:
-            if prop_holds:
-                continue
-            if dom:
-                for c in dom:
-                    ctx.known_or_violation(c, "brush and bash run different commands / statuses", case)
-            else:
-                ctx.violation("brush differs from bash inside the proved domain although the model agrees with brush "
-                              "(model or theorem wrong?)", case)
-        else:
-            # model != brush: features outside the model (parser defects) or a broken correspondence
-            clause = parse_clause(s, b)
-            if clause and not prop_holds:
-                ctx.known_or_violation(clause, "brush fails to parse a valid program", case)
-            elif prop_holds:
-                ctx.violation("control-flow model and brush disagree (correspondence broken; brush still equals bash here)",
-                              case, kind="correspondence")
-            else:
-                ctx.violation("brush differs from bash (and from its model): commands run / `$?` differ", case, kind="property")
+    scripts, res = flowcheck.decide(ctx, cases, "C02", fd3=False)
     ctx.sample({"script": scripts[len(scripts) // 2], "brush": canon(res[len(scripts) // 2][0])})
     ctx.sample({"script": scripts[-1], "brush": canon(res[-1][0])})
     ctx.cov["rule"] = ("programs from the typed control-flow grammar (flowgen.py): an exhaustive family of two nested loops x "
@@ -125,19 +76,6 @@ def run(ctx):
     ctx.assumptions += ["bash 5.2.15 is the oracle; the Lean bash-reference semantics (Spec/FlowBash.lean) is validated against it "
                         "on every case (oracle_mismatch counts disagreements)",
                         "leaf commands are the shell function L (uses local/eval/shift/return), assumed to behave alike in both shells"]
-
-
-def parse_clause(script, b):
-    """Defects of the parser that stop a valid program before it runs are not part of the flow model:
-    re-run brush on a token-identical variant that avoids the construct; the clause explains the
-    divergence only if the variant behaves like bash. (`esac )` and `! exit n` were repaired in /repo;
-    `( (` could not be: a snapshot test pins the defective parse.)"""
-    if "( (" in script:
-        v = script.replace("( (", "(\n(")
-        bv, ov = lib.run_both(v, timeout=20)
-        if canon(bv) == canon(ov):
-            return "nested_subshell_as_arith"
-    return None
 
 
 def _untuple(x):
